@@ -20,7 +20,7 @@ func (w *c04Writer) WriteUDPDatagram(peerID identity.AgentID, streamID uint64, d
 	w.dgs = append(w.dgs, d)
 	return nil
 }
-func (w *c04Writer) WriteUDPClose(identity.AgentID, uint64, uint8) error                 { return nil }
+func (w *c04Writer) WriteUDPClose(identity.AgentID, uint64, uint8) error                  { return nil }
 func (w *c04Writer) WriteUDPOpenAck(identity.AgentID, uint64, *protocol.UDPOpenAck) error { return nil }
 func (w *c04Writer) WriteUDPOpenErr(identity.AgentID, uint64, *protocol.UDPOpenErr) error { return nil }
 
@@ -40,6 +40,7 @@ func c04ReadFromUDP(c *net.UDPConn, b []byte) (int, *net.UDPAddr, error) {
 	n := copy(b, c04Payload)
 	return n, &net.UDPAddr{IP: net.IP{1, 2, 3, 4}, Port: 53}, nil
 }
+
 // (SetReadDeadline and Close are methods of the embedded net.conn: engine stubs, they succeed)
 
 func harnessC04UDPExitReturn() {
